@@ -167,8 +167,8 @@ func genParams(r *rng, n int, tier string, emit func(string)) {
 			}
 			emit(strings.Join(parts, " "))
 		case 6, 7:
-			mn := r.pick(0, 1, -5, 10, math.MinInt64, -100)
-			mx := r.pick(10, 100, 1, 0, math.MaxInt64, math.MaxInt32, -10)
+			mn := r.pick(0, 1, -5, 10, math.MinInt64, -100, -(1 << 53), math.MinInt64+1, -(1 << 62)) // also bounds beyond the float64-exact range
+			mx := r.pick(10, 100, 1, 0, math.MaxInt64, math.MaxInt32, -10, 1<<53, (1<<53)+2, math.MaxInt64-1, 1<<62)
 			d := r.pick(mn, mx, mn-1, mx+1, 0, 5, 50)
 			if mn == math.MinInt64 && d == mn-1 {
 				d = mn
@@ -298,6 +298,7 @@ func confAfterSetup(client string, params map[string]string) (*kafka.ConfigMap, 
 }
 
 func execParams(input string) string {
+	consumerMetrics() // metrics.Init: a real Setup registers collectors; every case must find the process initialised
 	f := strings.Fields(input)
 	if len(f) == 0 {
 		return "bad-input"
